@@ -7,6 +7,7 @@ pub struct Data {
     pub users: Vec<Vec<Cell>>,    // id, age, city, income
     pub orders: Vec<Vec<Cell>>,   // id, user_id, amount, qty
     pub products: Vec<Vec<Cell>>, // pid, price, cat
+    pub items: Vec<Vec<Cell>>,    // id, order_id, price
 }
 
 pub fn gen_data(rng: &mut Rng, n_users: usize, max_orders_per_user: u64) -> Data {
@@ -15,7 +16,10 @@ pub fn gen_data(rng: &mut Rng, n_users: usize, max_orders_per_user: u64) -> Data
     let mut orders = vec![]; let mut oid = 0;
     for u in 0..n_users { for _ in 0..rng.below(max_orders_per_user + 1) { orders.push(vec![Cell::Int(oid), Cell::Int(u as i64), Cell::Real(rng.range(0, 400) as f64 * 0.25), Cell::Int(rng.range(0, 10))]); oid += 1; } }
     let products: Vec<Vec<Cell>> = (0..8).map(|i| vec![Cell::Int(i), Cell::Real(rng.range(0, 200) as f64 * 0.25), Cell::Text(if i % 2 == 0 { "x" } else { "y" }.to_string())]).collect();
-    Data { users, orders, products }
+    // order ids and user ids overlap on purpose (both start at 0)
+    let mut items = vec![]; let mut iid = 0;
+    for o in &orders { for _ in 0..rng.below(3) { items.push(vec![Cell::Int(iid), o[0].clone(), Cell::Real(rng.range(0, 80) as f64 * 0.25)]); iid += 1; } }
+    Data { users, orders, products, items }
 }
 
 impl Data {
@@ -24,14 +28,19 @@ impl Data {
         db.create_table("users", &["id", "age", "city", "income"], &self.users);
         db.create_table("orders", &["id", "user_id", "amount", "qty"], &self.orders);
         db.create_table("products", &["pid", "price", "cat"], &self.products);
+        db.create_table("items", &["id", "order_id", "price"], &self.items);
         db
     }
     /// the neighbouring database: all rows owned by privacy unit `uid` removed (users row and its orders)
     pub fn without_user(&self, uid: i64) -> Data {
-        Data { users: self.users.iter().filter(|r| r[0] != Cell::Int(uid)).cloned().collect(), orders: self.orders.iter().filter(|r| r[1] != Cell::Int(uid)).cloned().collect(), products: self.products.clone() }
+        let gone: Vec<Cell> = self.orders.iter().filter(|r| r[1] == Cell::Int(uid)).map(|r| r[0].clone()).collect();
+        Data { users: self.users.iter().filter(|r| r[0] != Cell::Int(uid)).cloned().collect(), orders: self.orders.iter().filter(|r| r[1] != Cell::Int(uid)).cloned().collect(), products: self.products.clone(),
+               items: self.items.iter().filter(|r| !gone.contains(&r[1])).cloned().collect() }
     }
     /// only the rows owned by `uid` (public tables kept)
     pub fn only_user(&self, uid: i64) -> Data {
-        Data { users: self.users.iter().filter(|r| r[0] == Cell::Int(uid)).cloned().collect(), orders: self.orders.iter().filter(|r| r[1] == Cell::Int(uid)).cloned().collect(), products: self.products.clone() }
+        let mine: Vec<Cell> = self.orders.iter().filter(|r| r[1] == Cell::Int(uid)).map(|r| r[0].clone()).collect();
+        Data { users: self.users.iter().filter(|r| r[0] == Cell::Int(uid)).cloned().collect(), orders: self.orders.iter().filter(|r| r[1] == Cell::Int(uid)).cloned().collect(), products: self.products.clone(),
+               items: self.items.iter().filter(|r| mine.contains(&r[1])).cloned().collect() }
     }
 }
